@@ -19,9 +19,16 @@ pub(crate) fn read_hmac_block_stream(
     let mut block_index: u64 = 0;
 
     while pos < data.len() {
+        // a block cut short cannot authenticate
+        if data.len() - pos < 36 {
+            return Err(BlockStreamError::BlockHashMismatch { block_index }.into());
+        }
         let hmac = &data[pos..(pos + 32)];
         let size_bytes = &data[(pos + 32)..(pos + 36)];
         let size = LittleEndian::read_u32(size_bytes) as usize;
+        if data.len() - (pos + 36) < size {
+            return Err(BlockStreamError::BlockHashMismatch { block_index }.into());
+        }
         let block = &data[(pos + 36)..(pos + 36 + size)];
 
         // verify block hmac
